@@ -1,6 +1,7 @@
 package props
 
 import (
+	"google.golang.org/protobuf/proto"
 	"fmt"
 	"math/rand"
 
@@ -64,6 +65,12 @@ func (m *c15Model) upTo(d int) gen.Set {
 // c15Check runs the three extraction functions on g for start s and compares with the model.
 func c15Check(c *core.C, g *sbom.NodeList, s string, depths []int, r *rand.Rand, presentations int) bool {
 	m := c15BFS(g, s)
+	g0 := gen.Clone(g)
+	defer func() {
+		if !proto.Equal(g, g0) {
+			c.Violatef("extraction-changed-the-list", map[string]any{"before": gen.Canon(g0), "after": gen.Canon(g), "start": s}, "after the extractions from %q the list itself is no longer what it was: %s became %s", s, gen.Canon(g0), gen.Canon(g))
+		}
+	}()
 	ids := gen.IDSet(g)
 	roots := gen.RootSet(g)
 	det := map[string]any{"graph": gen.Canon(g), "start": s}
